@@ -367,6 +367,7 @@ type srvRun struct {
 	inFlight  int
 	maxFlight int
 	released  int
+	recycled  int // handlers that found their request context back in the pool when they were let go
 	logs      []string
 }
 
@@ -464,6 +465,10 @@ func runServerScenario(sc *scenario) string {
 		r := <-ph.release
 		run.mu.Lock()
 		run.inFlight--
+		// the handler still holds ctx: it must not have gone back to the pool under it (C17, C19)
+		if http2.VerifPoolHolds(ctx) {
+			run.recycled++
+		}
 		run.mu.Unlock()
 		if r == nil {
 			return
@@ -802,9 +807,16 @@ func runServerScenario(sc *scenario) string {
 	}
 	// every handler that was started has to have reported back (either way) before
 	// the counters are reset for the next connection
-	for dl := time.Now().Add(5 * time.Second); time.Now().Before(dl); {
+	handlersLeft := int64(0)
+	for dl := time.Now().Add(10 * time.Second); ; {
 		t := http2.VerifTicks()
 		if t[3]+t[7] >= t[6] {
+			break
+		}
+		if !time.Now().Before(dl) {
+			// handler goroutines that neither handed their stream back nor saw the loop's stop signal,
+			// ten seconds after their handlers returned and the connection was closed
+			handlersLeft = t[6] - t[3] - t[7]
 			break
 		}
 		time.Sleep(50 * time.Microsecond)
@@ -820,7 +832,13 @@ func runServerScenario(sc *scenario) string {
 		}
 	}
 	res += fmt.Sprintf(" !maxhandlers=%d", run.maxFlight)
+	if handlersLeft > 0 {
+		res += fmt.Sprintf(" !leak=%d", handlersLeft)
+	}
 	run.mu.Unlock()
+	if run.recycled > 0 {
+		viol = append(viol, fmt.Sprintf("request-context-recycled-under-its-handler(%d)", run.recycled))
+	}
 	if len(viol) > 0 {
 		res += " !pool:" + strings.Join(viol, ",")
 	}
